@@ -468,10 +468,14 @@ class ScopeRender:
             top = stack[-1]
             if op == "open":
                 how = it["how"]
-                if how == "func":
+                if how in ("func", "funcx"):
                     self._params = []
+                    self._groups = []      # further parameter lists of the declarator: (role, [parameter texts])
                     self._fn = K
                     pending_goto = []
+                    how = "func"
+                elif how == "pscope":
+                    self._groups.append((it["role"], []))
                 elif how == "block":
                     out.append("{")
                 elif how == "proto":
@@ -480,7 +484,17 @@ class ScopeRender:
                     self._forK = K
                 stack.append(how)
             elif op == "body":
-                out.append("void fn_%d(%s) {" % (self._fn, ", ".join(self._params) if self._params else "void"))
+                # own parameters, then function-pointer parameters with their own (prototype-scope) parameter lists;
+                # each "ret" list wraps the declarator: char (*fn(P))(Q), char (*(*fn(P))(Q))(R)
+                ps = list(self._params)
+                for gi, (role, g) in enumerate(self._groups):
+                    if role == "cb":
+                        ps.append("void (*chkcb_%d_%d)(%s)" % (self._fn, gi, ", ".join(g) if g else "void"))
+                decl = "fn_%d(%s)" % (self._fn, ", ".join(ps) if ps else "void")
+                rets = [g for role, g in self._groups if role == "ret"]
+                for g in rets:
+                    decl = "(*%s)(%s)" % (decl, ", ".join(g) if g else "void")
+                out.append("%s %s {" % ("char" if rets else "void", decl))
                 self._params = None
             elif op == "close":
                 how = it["how"]
@@ -489,6 +503,8 @@ class ScopeRender:
                 stack.pop()
                 if how in ("block", "forbody"):
                     out.append("}")
+                elif how == "pscope":
+                    pass
                 elif how == "func":
                     lab = {x["name"]: x["id"] for x in it["labels"]}
                     for g, n, c in pending_goto:
@@ -513,6 +529,8 @@ class ScopeRender:
                         t = "char (*%s)[%d]" % (n, u)
                         if top == "proto":
                             plist.append(t)
+                        elif top == "pscope":
+                            self._groups[-1][1].append(t)
                         else:
                             self._params.append(t)
                     elif k == "enum":
@@ -700,15 +718,16 @@ def scope_programs(ctx, objdir, exe, cases, label, copies=1, use_copies=None, na
         for j in range(3):       # fill the cache before the workers start
             collide_names(exe, 16, 0x3ff, (0x3ff, 0x155, 0x020)[j], "n", ("tail", "prefix", "suffix")[j])
     res = vlib.pmap(mk, list(enumerate(cases)), workers=workers)
-    nuse = nbad = 0
+    nuse = 0
+    perkey = {}
     for rend, src, bad in res:
         nuse += rend.nuses
         with _LOCK:
             ctx.count("scope:" + vlib.sha(src), nontrivial=rend.nuses > 0, n=max(1, rend.nuses))
-            for key, what, det in bad[:2]:
-                nbad += 1
-                if nbad > 4:         # a few per class: keep room in the report for the other parts of the check
-                    break
+            for key, what, det in bad[:3]:
+                perkey[key] = perkey.get(key, 0) + 1
+                if perkey[key] > 2:  # two per key and class: keep room in the report for the other parts of the check
+                    continue
                 det["program"] = src if len(src) < 20000 else src[:20000] + "..."
                 ctx.violation(key, what, det)
     with _LOCK:
@@ -810,6 +829,12 @@ def scope_check(ctx, objdir, hooks, exe):
     r = ctx.tlc_must_pass("CScope", "MC_CScope_sim.cfg", workers=4, simulate=60 if q else 500, depth=140, timeout=1200)
     sim = [json.loads(v) for v in r.vcases]
     scope_programs(ctx, objdir, exe, sim, "sim", audit_n=60 if q else 600)
+    # function definitions with several function declarators: which parameter list is the scope of the body
+    r = ctx.tlc_must_pass("CScope", "MC_CScope_fx.cfg", workers=2, simulate=25 if q else 200, depth=140, timeout=1200)
+    fx = [json.loads(v) for v in r.vcases]
+    if not any(it.get("how") == "funcx" for c in fx for it in c["prog"]):
+        raise vlib.MachineryError("MC_CScope_fx generated no multi-declarator function definition")
+    scope_programs(ctx, objdir, exe, fx, "funcx", audit_n=40 if q else 300)
     # 200-deep nesting
     r = ctx.tlc_must_pass("CScope", "MC_CScope_deep.cfg", workers=2, simulate=1 if q else 4, depth=8000, timeout=1200)
     deep = [json.loads(v) for v in r.vcases]
